@@ -2224,7 +2224,11 @@ func builtinAppend(env *LEnv, args *LVal) *LVal {
 		// the result is unsealed storage this call owns, so chaining extends
 		// it as before.  Exactly one allocation on each arm -- the sealed
 		// copy is sized for the append rather than clamped and regrown.
-		if seq.sealed {
+		if seq.sealed || len(vals) == 0 {
+			// With no values there is nothing to append, so append() below
+			// would hand back the clamped input slice itself and the result
+			// would be a second vector over seq's own storage -- sorting it
+			// in place would sort seq.  Copy, as the 'list arm always does.
 			fresh := make([]*LVal, len(cells), len(cells)+len(vals))
 			copy(fresh, cells)
 			//elps:mutates appends into `fresh`, which this function allocated two lines above with capacity for exactly this append; the sealed input is only read
